@@ -395,8 +395,26 @@ def ranges_to_flow(txt):
     return out
 
 
-def status_ok(code_stat, model_runs, nst, only_last=False):
-    """code '$? s0 s1 ..' must be componentwise among the statuses the model reaches under its schedulers"""
+def may_sigpipe(stages):
+    """Schedule-dependent outcomes the three deterministic schedulers of the model do not enumerate: a stage that
+    still has lines to write when its reader has gone ends with 141 (SIGPIPE/EPIPE) in bash as in brush, and whether
+    the reader is gone by then is a race (a slow `while read; echo` loop against `read -r x`). Stage i may end with 141
+    when it emits something and its reader can leave before having taken everything: the reader does not read at all
+    (src), wants fewer lines than are offered (head, read1), or may itself end with 141."""
+    outs = flow(stages)
+    n = len(stages)
+    cap = [False] * n
+    for i in range(n - 2, -1, -1):
+        offered = outs[i][2] - outs[i][1]
+        beh, _, arg = stages[i + 1][:3]
+        early = beh == "src" or (beh == "head" and arg < offered) or (beh == "read1" and offered > 1)
+        cap[i] = offered > 0 and (early or cap[i + 1])
+    return cap
+
+
+def status_ok(code_stat, model_runs, nst, only_last=False, stages=None):
+    """code '$? s0 s1 ..' must be componentwise among the statuses the model reaches under its schedulers
+    (plus 141 for a stage that may lose its reader, see may_sigpipe)"""
     if code_stat is None:
         return False
     parts = code_stat.split()
@@ -411,6 +429,10 @@ def status_ok(code_stat, model_runs, nst, only_last=False):
             return False
         for i, s in enumerate(ss):
             allowed[i].add(s)
+    if stages is not None:
+        for i, c in enumerate(may_sigpipe(stages)):
+            if c:
+                allowed[i].add("141")
     return all(parts[i + 1] in allowed[i] for i in range(nst)) and parts[0] == parts[-1]
 
 
@@ -490,7 +512,7 @@ def eval_sched(ctx, cases, env=None):
                 specv.append(v)
                 continue        # the model carries line ids, not bytes: nothing to compare for this case
             specv.append(v)
-        elif code["stat"] != bash["stat"] and not (use_model and status_ok(code["stat"], mr, len(st), wr)):
+        elif code["stat"] != bash["stat"] and not (use_model and status_ok(code["stat"], mr, len(st), wr, st)):
             specv.append({"input": info, "why": "statuses `$? PIPESTATUS` = %r, bash %r, model %r" % (
                 code["stat"], bash["stat"], [x["st"] for x in mr])})
         # ---- code vs model
@@ -502,7 +524,7 @@ def eval_sched(ctx, cases, env=None):
             mism.append({"case": info, "model": "final", "code": "hang"})
         elif hashlib.sha1(mdata).hexdigest() != code["sha"]:
             mism.append({"case": info, "model": mr[0]["ranges"], "code": code})
-        elif not status_ok(code["stat"], mr, len(st), wr):
+        elif not status_ok(code["stat"], mr, len(st), wr, st):
             mism.append({"case": info, "model": [x["st"] for x in mr], "code": code["stat"]})
     return {"mism": mism, "specv": specv, "dist": dist, "mruns": mruns, "model_lines": model,
             "fields": lambda st: model_fields(st, True)}
